@@ -23,21 +23,88 @@ Proof. reflexivity. Qed.
 Lemma compact_tt_cons : forall c r, compact_f true true (c :: r) = outc c ++ compact_f true false r.
 Proof. reflexivity. Qed.
 
+Lemma compact_tf_cons0 : forall c r, compact_f true false (c :: r) =
+  if c =? 92 then outc c ++ compact_f true true r
+  else if c =? 34 then outc c ++ compact_f false false r
+  else if c =? 226 then
+    match r with
+    | 128 :: x :: r' =>
+      if (x =? 168) || (x =? 169)
+      then [92; 117; 50; 48; 50; if x =? 168 then 56 else 57] ++ compact_f true false r'
+      else outc c ++ compact_f true false r
+    | _ => outc c ++ compact_f true false r
+    end
+  else outc c ++ compact_f true false r.
+Proof. intros c r. deep c; reflexivity. Qed.
+
+Lemma case_128 : forall (A : Type) (r : bytes) (a : N -> bytes -> A) (d : A),
+  match r with 128 :: x :: r' => a x r' | _ => d end =
+  match r with c1 :: x :: r' => if c1 =? 128 then a x r' else d | _ => d end.
+Proof.
+  intros A r a d. destruct r as [|c1 r]; [reflexivity|].
+  destruct r as [|x r]; [deep c1; reflexivity|]. deep c1; reflexivity.
+Qed.
+
 Lemma compact_tf_cons : forall c r, compact_f true false (c :: r) =
   if c =? 92 then outc c ++ compact_f true true r
   else if c =? 34 then outc c ++ compact_f false false r
   else if c =? 226 then
     match r with
     | c1 :: x :: r' =>
-      if (c1 =? 128) && ((x =? 168) || (x =? 169))
-      then [92; 117; 50; 48; 50; if x =? 168 then 56 else 57] ++ compact_f true false r'
+      if c1 =? 128 then
+        if (x =? 168) || (x =? 169)
+        then [92; 117; 50; 48; 50; if x =? 168 then 56 else 57] ++ compact_f true false r'
+        else outc c ++ compact_f true false r
       else outc c ++ compact_f true false r
     | _ => outc c ++ compact_f true false r
     end
   else outc c ++ compact_f true false r.
 Proof.
-  intros c r. Time (deep c; try reflexivity).
-  destruct r as [|c1 r]; [reflexivity|].
-  destruct r as [|x r]; [deep c1; reflexivity|].
-  Time (deep c1; try reflexivity).
+  intros c r. rewrite compact_tf_cons0.
+  destruct (c =? 92); [reflexivity|]. destruct (c =? 34); [reflexivity|].
+  destruct (c =? 226); [|reflexivity].
+  exact (case_128 bytes r
+    (fun x r' => if (x =? 168) || (x =? 169)
+       then [92; 117; 50; 48; 50; if x =? 168 then 56 else 57] ++ compact_f true false r'
+       else outc c ++ compact_f true false r)
+    (outc c ++ compact_f true false r)).
+Qed.
+
+(* ---------- scan_string, one step ---------- *)
+
+Definition is_simple_esc (e : N) : bool :=
+  (e =? 34) || (e =? 92) || (e =? 47) || (e =? 98) || (e =? 102) || (e =? 110) || (e =? 114) || (e =? 116).
+
+Lemma scan_string_O : forall s, scan_string O s = None.
+Proof. reflexivity. Qed.
+
+Lemma scan_string_nil : forall f, scan_string f [] = None.
+Proof. destruct f; reflexivity. Qed.
+
+Lemma scan_string_cons : forall f c r, scan_string (S f) (c :: r) =
+  if c =? 34 then Some ([], r)
+  else if c =? 92 then
+    match r with
+    | [] => None
+    | e :: r2 =>
+      if is_simple_esc e then
+        match scan_string f r2 with Some (a, k) => Some (92 :: e :: a, k) | None => None end
+      else if e =? 117 then
+        match r2 with
+        | h1 :: h2 :: h3 :: h4 :: r' =>
+          if is_hex h1 && is_hex h2 && is_hex h3 && is_hex h4 then
+            match scan_string f r' with
+            | Some (a, k) => Some (92 :: 117 :: h1 :: h2 :: h3 :: h4 :: a, k)
+            | None => None
+            end
+          else None
+        | _ => None
+        end
+      else None
+    end
+  else if c <? 32 then None
+  else match scan_string f r with Some (a, k) => Some (c :: a, k) | None => None end.
+Proof.
+  intros f c r. deep c; try reflexivity.
+  destruct r; reflexivity.
 Qed.
